@@ -33,7 +33,23 @@ def gen_case(rng, rows=None):
     case = P9.gen_case(rng, rows=rows, modes=(90, 4, 2, 2, 2), clean=rng.random() < 0.9, max_inputs=6)
     case['matrix'] = gen_matrix(rng)
     syms = rng.sample([1, 2, 3], rng.choice([0, 1, 2, 3]))
+    if case.get('material') is not None and case['material'] not in syms and rng.random() < 0.6:
+        syms.append(case['material'])         # the primitive's own symbol is bound more often than not
     case['matmap'] = [[s, rng.randint(1, 5)] for s in syms]
+    # real material bindings: every MaterialNode carries bind_vertex_input entries naming any subset /
+    # order of the texcoord sets (with or without input_set), sometimes a set that does not exist
+    nsets = sum(1 for i in case['inputs'] if i[1] == 'TEXCOORD')
+    mi = {}
+    for s_ in syms:
+        ent = []
+        order = list(range(nsets)) + ([7] if rng.random() < 0.15 else [])
+        rng.shuffle(order)
+        for k in order[:rng.randint(min(1, len(order)), len(order))]:
+            ent.append(['UVSET%d' % k, 'TEXCOORD', None if rng.random() < 0.2 else str(k)])
+        if rng.random() < 0.2:
+            ent.append(['NRM', 'NORMAL', None])
+        mi[str(s_)] = ent
+    case['matinputs'] = mi
     return case
 
 
